@@ -45,8 +45,9 @@ func c16Payloads() []payload {
 		{"load_file", "call", []string{"LOAD_FILE('/etc/passwd')", "load_file('/etc/passwd')", "Load_File ( '/etc/passwd' )"}, security.PatternOutOfBand, security.SeverityCritical},
 		{"xp_cmdshell", "call", []string{"XP_CMDSHELL('dir')", "xp_cmdshell('dir')"}, security.PatternOutOfBand, security.SeverityCritical},
 		{"union-null", "union", []string{"UNION SELECT NULL, NULL", "union select null, null", "UNION ALL SELECT NULL, NULL, NULL", "UNION\nSELECT\tNULL ,NULL"}, security.PatternUnionBased, ""},
-		{"union-infoschema", "union", []string{"UNION SELECT table_name FROM information_schema.tables", "union select table_name from information_schema.tables", "UNION  ALL\nSELECT table_name FROM INFORMATION_SCHEMA.TABLES", "UNION SELECT table_name\nFROM information_schema.tables", "UNION SELECT table_name\tFROM\tinformation_schema.tables", "UNION SELECT i.table_name FROM u JOIN information_schema.tables i ON 1 = 2", "UNION SELECT i.table_name FROM u LEFT JOIN v ON u.a = v.a JOIN information_schema.columns i ON i.table_name = u.b"}, security.PatternUnionBased, security.SeverityCritical},
-		{"union-null-named", "union", []string{"UNION SELECT NULL AS x, NULL AS y", "union select null as x, null as y", "UNION ALL SELECT NULL x, NULL y, NULL z", "UNION SELECT CAST(NULL AS INT), CAST(NULL AS TEXT)", "UNION SELECT NULL::int, NULL::text AS t"}, security.PatternUnionBased, ""},
+		{"union-infoschema", "union", []string{"UNION SELECT table_name FROM information_schema.tables", "union select table_name from information_schema.tables", "UNION  ALL\nSELECT table_name FROM INFORMATION_SCHEMA.TABLES", "UNION SELECT table_name\nFROM information_schema.tables", "UNION SELECT table_name\tFROM\tinformation_schema.tables", "UNION SELECT i.table_name FROM u JOIN information_schema.tables i ON 1 = 2", "UNION SELECT i.table_name FROM u LEFT JOIN v ON u.a = v.a JOIN information_schema.columns i ON i.table_name = u.b",
+			"UNION SELECT x FROM (SELECT table_name AS x FROM information_schema.tables) s", "UNION SELECT s.x FROM u JOIN (SELECT table_name AS x FROM (SELECT table_name FROM information_schema.tables) q) s ON 1 = 1"}, security.PatternUnionBased, security.SeverityCritical},
+		{"union-null-named", "union", []string{"UNION SELECT NULL AS x, NULL AS y", "union select null as x, null as y", "UNION ALL SELECT NULL x, NULL y, NULL z", "UNION SELECT CAST(NULL AS INT), CAST(NULL AS TEXT)", "UNION SELECT NULL::int, NULL::text AS t", "UNION SELECT CAST(NULL AS INT) AS a, CAST(NULL AS TEXT) AS b", "UNION SELECT NULL::int::bigint, NULL::text::varchar AS c"}, security.PatternUnionBased, ""},
 		{"union-null-infoschema", "union", []string{"UNION SELECT NULL, NULL FROM information_schema.tables", "union select null, null from information_schema.tables", "UNION ALL SELECT NULL, NULL, NULL FROM information_schema.columns", "UNION SELECT NULL, table_name, NULL FROM information_schema.tables"}, security.PatternUnionBased, security.SeverityCritical},
 		{"union-null-pgcatalog", "union", []string{"UNION SELECT NULL, NULL FROM pg_catalog.pg_tables", "union all select null, null, null from pg_catalog.pg_tables"}, security.PatternUnionBased, security.SeverityCritical},
 		{"union-pgcatalog", "union", []string{"UNION SELECT name FROM pg_catalog.pg_tables", "union select name from pg_catalog.pg_tables", "UNION ALL SELECT name FROM PG_CATALOG.pg_tables"}, security.PatternUnionBased, security.SeverityCritical},
@@ -77,6 +78,9 @@ func c16Positions() []position {
 		{"derived-table", "cond", "SELECT a FROM (SELECT b FROM u WHERE %s) d", false},
 		{"in-subquery", "cond", "SELECT a FROM t WHERE a IN (SELECT b FROM u WHERE %s)", false},
 		{"exists-subquery", "cond", "SELECT a FROM t WHERE EXISTS (SELECT 1 FROM u WHERE %s)", false},
+		{"not-exists-subquery", "cond", "SELECT a FROM t WHERE NOT EXISTS (SELECT 1 FROM u WHERE %s)", false},
+		{"and-not-exists-subquery", "cond", "DELETE FROM t WHERE b = 2 AND NOT EXISTS (SELECT 1 FROM u WHERE u.a = t.a AND (%s))", false},
+		{"not-in-subquery", "cond", "SELECT a FROM t WHERE a NOT IN (SELECT b FROM u WHERE %s)", false},
 		{"scalar-subquery", "cond", "SELECT (SELECT MAX(b) FROM u WHERE %s) FROM t", false},
 		{"cte-body", "cond", "WITH c AS (SELECT b FROM u WHERE %s) SELECT a FROM c", false},
 		{"insert-select", "cond", "INSERT INTO t (a) SELECT b FROM u WHERE %s", false},
@@ -138,6 +142,7 @@ func c16Positions() []position {
 		{"case-first-result-of-three", "call", "SELECT CASE WHEN a = 1 THEN %s WHEN a = 2 THEN 2 WHEN a = 3 THEN 3 END FROM t", false},
 		{"concat-chain-head-of-200", "call", "SELECT %s" + strings.Repeat(" || 'x'", 200) + " FROM t", false},
 		{"plus-chain-head-of-600", "call", "SELECT a FROM t WHERE a = %s" + strings.Repeat(" + 1", 600), false},
+		{"call-in-not-exists", "call", "SELECT a FROM t WHERE NOT EXISTS (SELECT 1 FROM u WHERE b = %s)", false},
 		{"in-list", "call", "SELECT a FROM t WHERE a IN (1, %s)", false},
 		{"between", "call", "SELECT a FROM t WHERE a BETWEEN 1 AND %s", false},
 		{"having-call", "call", "SELECT a FROM t GROUP BY a HAVING COUNT(*) > %s", false},
